@@ -1,13 +1,13 @@
 #!/bin/bash
-# MANIFEST.setup_cmd: offline; warms the build cache by building every monitor.
+# MANIFEST.setup_cmd: offline; builds every registered monitor once (warms the Go build cache).
 set -u
 cd "$(dirname "$(readlink -f "$0")")"
 export GOFLAGS=-mod=mod GOPROXY=off GOSUMDB=off GOTOOLCHAIN=local CGO_ENABLED=1
 mkdir -p bin work evidence replays
 rc=0
-for d in harness/cmd/*/; do
-  id="$(basename "$d")"
-  RACE=""; [ -f "$d/RACE" ] && RACE="-race"
+for ID in $(jq -r '.checks[].property_id' MANIFEST.json); do
+  id="$(echo "$ID" | tr 'A-Z' 'a-z')"
+  RACE=""; [ -f "harness/cmd/$id/RACE" ] && RACE="-race"
   ( cd harness && go build $RACE -tags verif -o "../bin/$id" "./cmd/$id" ) || { echo "setup: build of $id failed" >&2; rc=1; }
 done
 exit $rc
